@@ -23,6 +23,22 @@ def ev_call(ex, st, e, cx, k):
         r = spec_call(ex, st, e, cx, k)
         if r is not NotImplemented:
             return r
+    if isinstance(f, ast.Name) and f.id == 'cls' and cx.fi is not None and cx.fi.kind == 'classmethod' and cx.cls is not None \
+            and not cx.spec:
+        # cls(...) in a classmethod constructs the defining class (no subclass calls these factories with another cls)
+        return construct(ex, st, cx.cls, e, cx, k)
+    if isinstance(f, ast.Attribute) and f.attr == 'decode' and isinstance(f.value, ast.Call) \
+            and isinstance(f.value.func, ast.Name) and f.value.func.id == 'bytes' and len(f.value.args) == 2 \
+            and len(e.args) == 1 and isinstance(e.args[0], ast.Constant) and e.args[0].value == 'unicode_escape':
+        # bytes(s, 'utf-8').decode('unicode_escape'): Python's escape processing, an uninterpreted function of the text
+        def fdec(s_, v):
+            un = ex.uf('unicode_unescape', z3.StringSort(), z3.StringSort())
+            if v.ty.kind == 'opt' and v.ty.args[0].kind == 'str':
+                dt = T.sort_of(v.ty)
+                return ex.guard_raise(s_, cx, dt.is_none(v.z) if hasattr(dt, 'is_none') else z3.Not(dt.is_some(v.z)), 'TypeError', e,
+                                      lambda s2: k(s2, SV(STR, un(dt.val(v.z)))), why='bytes(None, ...)')
+            return k(s_, SV(STR, un(ex.coerce(v, STR).z)))
+        return ex.ev(st, f.value.args[0], cx, fdec)
     if isinstance(f, ast.Name) and f.id not in st.vars:
         nm = f.id
         if nm in ex.reg.specs:
@@ -289,6 +305,13 @@ def spec_call(ex, st, e, cx, k):
         vars_, heap_ = st.snaps['old']
         al = heap_.get('alloc', ex.heap_get(st.copy(heap={}), 'alloc', z3.ArraySort(z3.IntSort(), z3.BoolSort())))
         return k(st, SV(BOOL, z3.Not(z3.Select(al, v.z))))
+    if nm == 'unicode_unescape':
+        v = ex.pure(st, e.args[0], cx)
+        return k(st, SV(STR, ex.uf('unicode_unescape', z3.StringSort(), z3.StringSort())(ex.coerce(v, STR).z)))
+    if nm in ('union_is_str', 'union_str'):
+        v = ex.pure(st, e.args[0], cx)
+        U = T.union_datatype()
+        return k(st, SV(BOOL, U.is_US(v.z)) if nm == 'union_is_str' else SV(STR, U.us(v.z)))
     if nm in ('typeis_union_ref', 'union_is_int', 'union_ref', 'union_int'):
         v = ex.pure(st, e.args[0], cx)
         U = T.union_datatype()
@@ -331,7 +354,8 @@ def spec_call(ex, st, e, cx, k):
         return k(st, SV(INT, tb(u.z, n_.z, ex.truth(st, little), j.z)))
     if nm == 'store':
         a, i, v = [ex.pure(st, x, cx) for x in e.args]
-        return k(st, SV(a.ty, z3.Store(a.z, ex.coerce(i, INT).z, ex.coerce(v, a.ty.args[0]).z)))
+        iz = i.z if T.is_reflike(i.ty) else ex.coerce(i, INT).z
+        return k(st, SV(a.ty, z3.Store(a.z, iz, ex.coerce(v, a.ty.args[0]).z)))
     if nm == 'seq_empty':
         ty = ex.tenv.parse(e.args[0].value)
         return k(st, SV(T.seq(ty), z3.Empty(z3.SeqSort(T.sort_of(ty)))))
@@ -654,10 +678,16 @@ def call_with_contract(ex, st, fi, c, args, kwargs, cx, node, k):
     pre = st.copy(vars=vars_)
     short = fi.key.split(':')[1]
     if not cx.spec:
+        waived = (cx.contract.assume_pre or {}).get(short) if cx.contract is not None else None
         for i, r in enumerate(c.requires):
             g = eval_clause(ex, pre, r, ccx)
-            ex.oblige(pre, ex.site(cx, node, f'call:{short}.requires[{i}]'), g, kind='call-pre',
-                      info=dict(clause=r))
+            if waived is None:
+                ex.oblige(pre, ex.site(cx, node, f'call:{short}.requires[{i}]'), g, kind='call-pre',
+                          info=dict(clause=r))
+            else:
+                note = f'precondition of {short} assumed, not proved, at its call in {cx.fi.key.split(":")[1]}: {waived}'
+                if note not in ex.notes:
+                    ex.notes.append(note)
             pre = pre.assume(g)
     outs = []
     # exceptional outcomes
@@ -706,6 +736,10 @@ def post_state(ex, pre, fi, c, ccx, vars_, raised):
             st = st.setvar('result', res)
         for cl in c.ensures:
             st = st.assume(eval_clause(ex, st, cl, ccx))
+        if rt is not None and (rt.kind == 'list' or (rt.kind == 'opt' and rt.args[0].kind == 'list')):
+            # a returned list has a length (never negative), whatever heap it lives in after the call
+            lv = res if rt.kind == 'list' else SV(rt.args[0], res.z)
+            st = st.assume(z3.Implies(res.z != 0, ex.list_len(st, lv) >= 0))
     else:
         for cl in c.ensures_on_raise.get(raised, []):
             st = st.assume(eval_clause(ex, st, cl, ccx))
